@@ -22,6 +22,7 @@ import GM.Gen.PhaseFacts
 import GM.Props.Convert
 import GM.Proof.IndepReset
 import GM.Proof.IndepEnd
+import GM.Props.C09Shift
 
 namespace GM.Props.C09
 open GM GM.Refs
@@ -299,5 +300,52 @@ example : (fencedClose 1 { exampleState with pc := { fence := some ⟨96, 0, 3, 
     = some true := by decide +kernel
 
 end independence
+
+/-- (re-export of `GM.Props.C09Shift.shift_invariance_list_free`) **Shift invariance, all block parsers but the list parsers** (C09 first half, step (iii); partial only in that the
+    two list parsers are not covered).
+
+    Let `p` (= `F.p`) be empty or end with a blank line, let `b` be ANY byte string that contains none of `- * +` and no
+    digit. Let run B stand in the outer loop of parseBlocks at offset `|p|` of `p ++ b` (`Start`): reader = the fresh reader
+    of `b` moved by `|p|` bytes / `dl` lines, no open block, `temporaryParagraphKey`, `fencedCodeBlockInfoKey`,
+    `skipListParserKey` unset, store = Document (children `kids0`) + `c` nodes, blank-line statistics all from lines `< dl`
+    and (if any) saying that line `dl - 1` is blank. If the rest of run B ends normally in `sB'` (it does:
+    `GM.Props.Blocks.no_panic` for whole runs), then `run b` ends normally in some `sA'` and
+
+      * B's store has `c` more nodes than A's; A's node `j` is B's node `ι j` (`ι 0 = 0`, `ι j = j + c`);
+      * B's node `ι j` is A's node `j` with parent / children ids mapped by `ι` and EVERY line segment, info segment and
+        closure line moved by `|p|`; kind, level, list fields, HasBlankPreviousLines, HTML type are equal;
+      * B's Document has exactly the children `kids0 ++ (A's Document children, mapped)`
+
+    (`shift_invariance_store_shape`, and at tree level `shift_invariance_subtrees` / `shift_invariance_document`), i.e. what
+    comes before a closed block does not change how the following text is parsed. -/
+theorem shift_invariance_list_free : type_of% @GM.Props.C09Shift.shift_invariance_list_free := @GM.Props.C09Shift.shift_invariance_list_free
+
+/-- (re-export of `GM.Props.C09Shift.shift_invariance_covered_all`) the same for any parser set `Cov` that meets the step contracts, triggers only covered parsers, and whose containers
+    answer HasChildren when they continue -/
+theorem shift_invariance_covered_all : type_of% @GM.Props.C09Shift.shift_invariance_covered_all := @GM.Props.C09Shift.shift_invariance_covered_all
+
+/-- (re-export of `GM.Props.C09Shift.shift_invariance_store_shape`) what `StoreRel` says about the Document and about every node, spelled out -/
+theorem shift_invariance_store_shape : type_of% @GM.Props.C09Shift.shift_invariance_store_shape := @GM.Props.C09Shift.shift_invariance_store_shape
+
+/-- (re-export of `GM.Props.C09Shift.shift_step_open`) **`Open` of every block parser but the two list parsers** from related states on a line: same answer (node id mapped
+    by `ι`), related states — the full relation when the answer is nil or HasChildren, the limbo relation (readers related
+    after the next AdvanceLine) after a leaf parser consumed its line. -/
+theorem shift_step_open : type_of% @GM.Props.C09Shift.shift_step_open := @GM.Props.C09Shift.shift_step_open
+
+/-- (re-export of `GM.Props.C09Shift.shift_step_continue_any_source`) **`Continue` without the assumption that the source ends with a line feed**: same answer; afterwards the full relation,
+    or — when the answer is "Continue, no children" — at least the limbo relation (only fencedCodeBlockParser.Continue on a
+    last line that is all fence indentation needs this: `Advance(-1)`, fcode_block.go:104). -/
+theorem shift_step_continue_any_source : type_of% @GM.Props.C09Shift.shift_step_continue_any_source := @GM.Props.C09Shift.shift_step_continue_any_source
+
+/-- (re-export of `GM.Props.C09Shift.shift_step_close`) **`Close`** of the same parsers (no `Close` looks at the reader, only at its source): related stores and contexts,
+    including the tree surgery of setextHeadingParser.Close and the trimming of paragraph / code block lines. -/
+theorem shift_step_close : type_of% @GM.Props.C09Shift.shift_step_close := @GM.Props.C09Shift.shift_step_close
+
+/-- (re-export of `GM.Props.C09Shift.shift_driver_open_blocks`) **openBlocks** (parser.go:928-1024) from weakly related states (BlockOffset / BlockIndent need not agree: they are
+    written before they are read): same answer, limbo relation; the retry fuels of the two runs are unrelated. -/
+theorem shift_driver_open_blocks : type_of% @GM.Props.C09Shift.shift_driver_open_blocks := @GM.Props.C09Shift.shift_driver_open_blocks
+
+/-- (re-export of `GM.Props.C09Shift.shift_driver_blocks_any_source`) see `GM.Props.C09Shift.shift_driver_blocks_any_source` -/
+theorem shift_driver_blocks_any_source : type_of% @GM.Props.C09Shift.shift_driver_blocks_any_source := @GM.Props.C09Shift.shift_driver_blocks_any_source
 
 end GM.Props.C09
